@@ -1596,5 +1596,5 @@ class XsdAlternative(XsdComponent):
         try:
             result = list(self.token.select(context=XPathContext(elem)))
             return self.token.boolean_value(result)
-        except (TypeError, ValueError):
-            return False
+        except (TypeError, ValueError, ArithmeticError, ElementPathError):
+            return False  # a dynamic error in the test is a false result
